@@ -43,10 +43,23 @@
  *        adding a pointer to the resource it guards and a list of any observer
  *        resource guards that get signals forwarded from this one.
  */
+struct cmb_resourceguard;
+
+/**
+ * @brief Function prototype for how the owner of a resource guard wants a
+ *        signal forwarded from an observed guard to be handled.
+ *
+ * @memberof cmb_resourceguard
+ * @param rgp Pointer to the (observing) resource guard that gets the signal.
+ * @return `true` if some process was resumed, `false` if not.
+ */
+typedef bool (cmb_resourceguard_signal_func)(struct cmb_resourceguard *rgp);
+
 struct cmb_resourceguard {
     struct cmi_hashheap priority_queue;         /**< The base hashheap class */
     struct cmi_resourcebase *guarded_resource;  /**< The resource it guards */
     struct cmi_slist_head observers;            /**< Any other resource guards observing this one */
+    cmb_resourceguard_signal_func *on_signal;   /**< Handler for forwarded signals, `NULL` for `cmb_resourceguard_signal` */
 };
 
 /**
